@@ -70,6 +70,17 @@ def special_form(ex, name, e, st):
         return out
     if name in trace.ACCESSORS and name not in st.locals and not e.args:
         return [(st, trace.read(ex.W, st.heap, trace.ACCESSORS[name]))]
+    if name == 'bump':
+        cell = '$' + e.args[0].value
+        s2 = st.copy()
+        cur = s2.heap.read_global(cell, INT)
+        s2.heap.write_global(cell, INT, mk_int(cur.term + 1))
+        return [(s2, mk_none())]
+    if name == 'advance_input':
+        s2 = st.copy()
+        cur = s2.heap.read_global('$in_pos', INT)
+        s2.heap.write_global('$in_pos', INT, mk_int(cur.term + 1))
+        return [(s2, mk_none())]
     if name == 'set_probe':
         out = []
         for s, v in ex.ev(e.args[0], st):
@@ -287,7 +298,7 @@ def call_method(ex, recv, name, args, kwargs, st):
         if name == 'lower':
             return [(st, mk_str(slower(s)))]
         if name == 'strip' and not args:
-            return [(st, mk_str(sstrip(s)))]
+            return [(st, mk_str(ex.S.uf(contracts.SPECFNS['stripped'])(s)))]
         if name == 'replace':
             r = z3.Function('str_replace', Str, Str, Str, Str)
             return [(st, mk_str(r(s, args[0].term, args[1].term)))]
